@@ -376,6 +376,76 @@ def pStep (st : St) (ws : List String) : St × String :=
     | none => (st, "bad-op")
   | _ => (st, "bad-op")
 
+/-! ### calls with an unhashable key (`XL` a list, `XD` a dict, `XS` a set)
+The key type of the models has hashable keys only.  What the code does with an unhashable one is decided before
+anything is changed — odict/modict/oset hash the key in their first dict operation (TypeError), lodict calls
+`key.lower()` first (AttributeError), `modict.get`... is not generated — so the call is answered here as
+"raises, state as it was" (C39_rejected_op_is_noop is the same statement for the rejections inside the model).
+A multi-pair update stores the pairs before the bad one first, as `dict.update` does; `lodict.update` lowers all
+keys into a temporary odict before touching itself, so it changes nothing. -/
+def isBadKey (s : String) : Bool := s == "XL" || s == "XD" || s == "XS" || s == "XI"   -- XI: a non-integer index
+def hasBad (ws : List String) : Bool :=
+  ws.any (fun t => isBadKey t || (t.splitOn ",").any (fun p => isBadKey ((p.splitOn "=").headD "")))
+def goodPrefix (ps : String) : String :=
+  let l := (commaList ps).takeWhile (fun p => !isBadKey ((p.splitOn "=").headD ""))
+  sepBy l
+
+def badStep (st : St) (kind : String) (ws : List String) : St × String :=
+  match kind, ws with
+  | "d", op :: i :: rest =>
+    match i.toNat?.bind (st.dh[·]?) with
+    | none => (st, "bad-op")
+    | some (c, _) =>
+      let err := match c with | .od => "ERR Rejected" | .lod => "ERR Rejected"
+      if op == "updatep" then
+        match rest, c with
+        | [ps], .od =>
+          match dStep st ["updatep", i, goodPrefix ps] with
+          | (st', _) => (st', err ++ " | " ++ dumpD st'.dh)
+        | [_], .lod => (st, err ++ " | " ++ dumpD st.dh)
+        | _, _ => (st, "bad-op")
+      else if ["set", "del", "getitem", "has", "get", "append", "insert", "pop", "setdefault"].contains op then
+        (st, err ++ " | " ++ dumpD st.dh)
+      else (st, "bad-op")
+  | "m", op :: i :: rest =>
+    match i.toNat?.bind (st.mh[·]?) with
+    | none => (st, "bad-op")
+    | some _ =>
+      if op == "update" then
+        match rest with
+        | [ps] =>
+          match mStep st ["update", i, goodPrefix ps] with
+          | (st', _) => (st', "ERR Rejected | " ++ dumpM st'.mh)
+        | _ => (st, "bad-op")
+      else if ["set", "append", "del", "getitem", "has", "replace", "setdefault", "pop", "popitem"].contains op then
+        (st, "ERR Rejected | " ++ dumpM st.mh)
+      else (st, "bad-op")
+  | "l", op :: i :: rest =>
+    match i.toNat? with
+    | none => (st, "bad-op")
+    | some n =>
+      if n < st.lh.objs.length then
+        if op == "update" then
+          match rest with
+          | [ps] =>
+            match lStep st ["update", i, goodPrefix ps] with
+            | (st', _) => (st', "ERR Rejected | " ++ dumpL st'.lh)
+          | _ => (st, "bad-op")
+        else if ["set", "append", "del", "replace"].contains op then (st, "ERR Rejected | " ++ dumpL st.lh)
+        else (st, "bad-op")
+      else (st, "bad-op")
+  | "s", op :: i :: _ =>
+    match i.toNat?.bind (st.sh[·]?) with
+    | none => (st, "bad-op")
+    | some _ =>
+      if ["add", "discard", "remove", "has"].contains op then (st, "ERR Rejected | " ++ dumpS st.sh) else (st, "bad-op")
+  | "p", op :: i :: _ =>
+    match i.toNat?.bind (st.ph[·]?) with
+    | none => (st, "bad-op")
+    | some _ =>
+      if ["add", "discard", "has"].contains op then (st, "ERR Rejected | " ++ dumpP st.ph) else (st, "bad-op")
+  | _, _ => (st, "bad-op")
+
 def step (st : St) (line : String) : St × String :=
   match words line with
   | ["reset"] => ({}, "ok")
@@ -385,11 +455,14 @@ def step (st : St) (line : String) : St × String :=
         | _ => none) with
     | some tab => ({ st with low := tab }, "ok")
     | none => (st, "bad-op")
-  | "d" :: ws => dStep st ws
-  | "m" :: ws => mStep st ws
-  | "s" :: ws => sStep st ws
-  | "p" :: ws => pStep st ws
-  | "l" :: ws => lStep st ws
+  | kind :: ws =>
+    if hasBad ws then badStep st kind ws else
+    if kind == "d" then dStep st ws
+    else if kind == "m" then mStep st ws
+    else if kind == "s" then sStep st ws
+    else if kind == "p" then pStep st ws
+    else if kind == "l" then lStep st ws
+    else (st, "bad-op")
   | _ => (st, "bad-op")
 
 end Ioflo.Drv.Containers
